@@ -1208,8 +1208,30 @@ struct Value {
             }
 
             case ValueType::Array: {
-                SizeT index;
-                Digit::FastStringToNumber(index, key, length);
+                // The key must be a plain decimal index: FastStringToNumber checks nothing
+                // ("" -> 0, ":" -> 10, "4294967296" -> 0 after wrapping).
+                if ((length == 0) || (length > SizeT{10})) {
+                    return nullptr;
+                }
+
+                SizeT64 index64 = 0;
+
+                for (SizeT i = 0; i < length; i++) {
+                    const Char_T digit = key[i];
+
+                    if ((digit < DigitUtils::DigitChar::Zero) || (digit > DigitUtils::DigitChar::Nine)) {
+                        return nullptr;
+                    }
+
+                    index64 *= SizeT64{10};
+                    index64 += SizeT64(digit - DigitUtils::DigitChar::Zero);
+                }
+
+                if (index64 >= SizeT64(array_.Size())) {
+                    return nullptr;
+                }
+
+                const SizeT index = SizeT(index64);
 
                 if (index < array_.Size()) {
                     Value *val = (array_.Storage() + index);
